@@ -1,6 +1,7 @@
 import Driver.Proto
 import Driver.OpsBind
 import XsdataModel.BindShared.Parse
+import XsdataModel.BindShared.Union
 open Lean Proto Py Xs.Bind
 
 namespace OpsBindShared
@@ -27,6 +28,11 @@ def run (op : String) (a : Json) : Option (Except String Json) :=
         | .ok (v, w) => ok (jObj [("value", jVal v), ("warnings", jNat w)])
         | .error e => jErr e
       pure <| ok (jObj [("results", jList jRes r.1), ("changed", jList jStr (changedClasses Γ r.2))])
+  | "bind.unioncfg" => some do
+      let cfg := dCfg (field a "config")
+      let flags : ParserConfig → Json := fun c =>
+        Json.arr #[jBool c.failOnUnknownProperties, jBool c.failOnUnknownAttributes, jBool c.failOnConverterWarnings]
+      pure <| ok (jObj [("replay", Json.arr #[flags (unionReplayConfig cfg)]), ("after", flags cfg)])
   | _ => none
 
 end OpsBindShared
